@@ -852,6 +852,19 @@ def rule_matchers_forward(ctx):
         for rblk in b.return_blocks():
             if not any(C.dominates(b, fb, rblk) for fb, _ in fbm):
                 bad = bad or (rblk, "an exit is reachable without the lookup")
+        # one collection is consulted, the one the matcher is named after (`matching_by_tcp_request` -> database.tcp_request): a
+        # second lookup (a fallback into a sibling collection) reports entries that are not in the scanned collection
+        from ..engine import lists as L
+        cols = []
+        for xb in L.with_closures(P, b):
+            XS = T.Slicer(xb, P)
+            for fb_, ft_ in Q.calls(xb, "find_best_match"):
+                a_ = Q.call_args(xb, XS, fb_, ft_)
+                recv_ = T.expand_upvars(P, xb, a_[0]) if xb is not b else a_[0]
+                cols.append(sorted({x[2] for x in T.walk(recv_) if x[0] == "field" and isinstance(x[2], str) and x[2] not in ("database", "0")}))
+        want_col = b.name[len("matching_by_"):]
+        if bad is None and not (len(cols) == 1 and cols[0] == [want_col]):
+            bad = (fbm[0][0], "consults %s (expected only `%s`)" % (cols, want_col))
         ctx.check(bad is None, "R4", "matcher:%s:%s" % (b.crate.replace("huginn_net_", ""), b.name), "returns find_best_match(..) on every path",
                   "%s %s: the analyzer reports `no match` (or a filtered result) for observations the collection's distance function accepts, so what is reported is not "
                   "the best match of a full scan" % (T.short(b.path), bad[1] if bad else ""), ctx.loc(b, bad[0]) if bad else ctx.loc(b))
